@@ -422,6 +422,9 @@ def extract_xml_render(defs, consts):
     for (name, kind, holes), (k, text) in zip(names, lits):
         if k != kind or (kind == "fmt" and text.count("{}") != holes) or ("{" in text.replace("{}", "")):
             raise ExtractError(f"xml render literals: {name}: unexpected literal {text!r}")
+        if name == "litMissingPrefixNoNamespace" and text != "":
+            # the model reports this error as MissingPrefix of the no-namespace id, whose URI is ""
+            raise ExtractError(f"xml render literals: the StartTagOpen arm's MissingPrefix payload is {text!r}, expected the empty string")
         if kind == "fmt":
             defs.append(f"def {name} : List (List Char) := {lean_strs(text.split('{}'))}\n")
         else:
